@@ -12,10 +12,8 @@ VERIF = os.path.dirname(os.path.dirname(os.path.abspath(__file__)))
 PY = "/venv/bin/python"
 # refactorings the framework is known not to look through (the check would report the broken obligation with no-failing-input-found)
 EXPECTED_TO_FAIL = {"ref-B": "SHADEDeme.run_metaepoch rewritten with a `stopped_by_gsc` flag and `break`: the statement compiler has no `break`",
-                    "ref-J": "four of its sixteen edits restructure loops or reorder statements that touch one modelled record: DEDeme's loop with a `gsc_reached` flag in the "
-                             "condition and merged history appends; EADeme's `self._generations` hoisted out of the loop (a per-deme state read becomes a loop parameter); "
-                             "`_do_sprout` appending the child to its level before `add_child` (in the model the parent link is a field of the child record); "
-                             "NoActiveNonrootDemes looping over `tree.levels[1:]` instead of level numbers (ref-J-part is the same patch without ea_deme / de_deme / tree / gsc)"}
+                    "ref-J": "two of its sixteen edits restructure loops: DEDeme's loop with a `gsc_reached` flag in the condition and merged history appends; "
+                             "NoActiveNonrootDemes looping over `tree.levels[1:]` instead of level numbers (ref-J-part is the same patch without de_deme.py / gsc.py)"}
 TARGETS = ("Proofs/GenEquivCommon.vo Proofs/GenEquivProblem.vo Proofs/GenEquivEntropy.vo Proofs/DriverCode.vo Proofs/GenEquivStops.vo Proofs/GenEquivLevelLimit.vo "
            "Proofs/GenEquivDemeLimit.vo Proofs/GenEquivFar.vo Proofs/GenEquivAccessors.vo Proofs/GenEquivPop.vo Proofs/GenEquivGenerators.vo Proofs/GenEquivMechanism.vo "
            "Proofs/GenEquivOps.vo Proofs/GenEquivCtor.vo Proofs/GenEquivMinimize.vo Proofs/GenEquivIds.vo Proofs/GenEquivOrder.vo Proofs/GenEquivNBC.vo Proofs/GenEquivPersist.vo Proofs/GenEquivDirection.vo")
